@@ -117,6 +117,16 @@ namespace
         static void start(State<Int> n) { n.set(Int{0}); }
         static void eval(In<"a", TS<Int>> a, In<"b", TS<Int>> b, State<Int> n, Out<TS<Int>> out) { n.set(n.get() + 1); out.set(n.get() * 1000000 + a.value() * 1000 + b.value()); }
     };
+    struct NPairTimer   // delayed echo: every input tick re-arms ONE tagged deadline (2 or 3 steps ahead); when it fires the node emits a*1000+b+500000
+    {
+        static constexpr auto name = "c10_f_pair_timer_node";
+        static void eval(In<"a", TS<Int>> a, In<"b", TS<Int>> b, NodeScheduler sched, Out<TS<Int>> out)
+        {
+            if (a.modified() || b.modified()) sched.schedule(MIN_TD * (2 + a.value() % 2), std::string{"d"});
+            else out.set(Int{a.value() * 1000 + b.value() + 500000});
+        }
+    };
+    struct FPairTimer { static constexpr auto name = "c10_g_pair_timer"; static Port<TS<Int>> compose(Wiring &w, Port<TS<Int>> a, Port<TS<Int>> b) { return wire<NPairTimer>(w, a, b); } };
     struct FPair { static constexpr auto name = "c10_g_pair"; static Port<TS<Int>> compose(Wiring &w, Port<TS<Int>> a, Port<TS<Int>> b) { return wire<NPair>(w, a, b); } };
     struct FPairCount { static constexpr auto name = "c10_g_pair_count"; static Port<TS<Int>> compose(Wiring &w, Port<TS<Int>> a, Port<TS<Int>> b) { return wire<NPairCount>(w, a, b); } };
 
@@ -465,9 +475,10 @@ namespace
 
     Outcome run_desc(const std::string &desc)
     {
-        if (desc.rfind("two|", 0) == 0 || desc.rfind("twocount|", 0) == 0)
+        if (desc.rfind("two|", 0) == 0 || desc.rfind("twocount|", 0) == 0 || desc.rfind("twotimer|", 0) == 0)
         {
             auto parts = split(desc, '|');
+            if (parts[0] == "twotimer") return run_two<FPairTimer>(split(parts.at(1), ';'), split(parts.at(2), ';'));
             return parts[0] == "two" ? run_two<FPair>(split(parts.at(1), ';'), split(parts.at(2), ';')) : run_two<FPairCount>(split(parts.at(1), ';'), split(parts.at(2), ';'));
         }
         auto parts = split(desc, '|');
@@ -534,7 +545,7 @@ void verif_enumerate(verif::Ctx &ctx)
             while (p < T && ++idx[static_cast<std::size_t>(p)] == static_cast<int>(lists.size())) { idx[static_cast<std::size_t>(p)] = 0; ++p; }
             if (p == T) break;
         }
-        for (const char *fnname : {"two", "twocount"})
+        for (const char *fnname : {"two", "twocount", "twotimer"})
             for (auto &h1 : hist) for (auto &h2 : hist)
             {
                 if (!ctx.next_is_mine()) continue;
